@@ -267,6 +267,8 @@ uint32_t TPM12_GetBufferSize(void)
     return TPM12_SetBufferSize(0, NULL, NULL);
 }
 
+static TPM_RESULT TPM_PermanentAll_NVLoad_Preserve(tpm_state_t *tpm_state);
+
 static TPM_RESULT TPM12_ValidateState(enum TPMLIB_StateType st,
                                       unsigned int flags LIBTPMS_ATTR_UNUSED)
 {
@@ -295,8 +297,9 @@ static TPM_RESULT TPM12_ValidateState(enum TPMLIB_StateType st,
     tpm_state.tpm_number = 0;
 
     if (ret == TPM_SUCCESS) {
-        /* permanent state needs to be there and loaded first */
-        ret = TPM_PermanentAll_NVLoad(&tpm_state);
+        /* permanent state needs to be there and loaded first;
+           keep a blob cached by TPMLIB_SetState() */
+        ret = TPM_PermanentAll_NVLoad_Preserve(&tpm_state);
     }
 
     for (i = 0; sts[i] && ret == TPM_SUCCESS; i++) {
